@@ -87,37 +87,74 @@ func checkC02(p *Prog, r *Report) {
 			}
 			emissions++
 			var okWeak, okLen, okStrong bool
-			for _, f := range FactsAt(c) {
-				switch x := f.Cond.(type) {
-				case *ssa.BinOp:
-					if (x.Op == token.NEQ && !f.Val) || (x.Op == token.EQL && f.Val) {
-						for _, side := range []ssa.Value{x.X, x.Y} {
-							idx, fld := loadSumsElemField(side)
-							if idx == i && fld == sum1F {
-								okWeak = true
+			gateAt := func(at ssa.Instruction, i ssa.Value) (okWeak, okLen, okStrong bool) {
+				for _, f := range FactsAt(at) {
+					switch x := f.Cond.(type) {
+					case *ssa.BinOp:
+						if (x.Op == token.NEQ && !f.Val) || (x.Op == token.EQL && f.Val) {
+							for _, side := range []ssa.Value{x.X, x.Y} {
+								idx, fld := loadSumsElemField(side)
+								if idx == i && fld == sum1F {
+									okWeak = true
+								}
+								if idx == i && fld == lenF {
+									okLen = true
+								}
 							}
-							if idx == i && fld == lenF {
-								okLen = true
+						}
+					case *ssa.Call:
+						if !f.Val || calleeName(x) != "bytes.Equal" {
+							continue
+						}
+						ea := x.Common().Args
+						for _, pr := range [][2]ssa.Value{{ea[0], ea[1]}, {ea[1], ea[0]}} {
+							ls, ok1 := pr[0].(*ssa.Slice)
+							rs, ok2 := pr[1].(*ssa.Slice)
+							if !ok1 || !ok2 || ls.Low != nil || rs.Low != nil || ls.High == nil || rs.High == nil {
+								continue
+							}
+							if !isFieldLoad(ls.High, cklenF) || !isFieldLoad(rs.High, cklenF) {
+								continue
+							}
+							idx, fld := sumsElemField(rs.X)
+							if idx == i && fld == sum2F && isStrongOf(ls.X) {
+								okStrong = true
 							}
 						}
 					}
-				case *ssa.Call:
-					if !f.Val || calleeName(x) != "bytes.Equal" {
-						continue
+				}
+				return
+			}
+			okWeak, okLen, okStrong = gateAt(c, i)
+			// i, found := st.findMatch(…): the gate may sit in a helper that returns the
+			// block index together with a flag; the emission is then guarded by the flag
+			if ex, isEx := i.(*ssa.Extract); isEx && !(okWeak && okLen && okStrong) {
+				if hcall, isCall := ex.Tuple.(*ssa.Call); isCall {
+					h := hcall.Common().StaticCallee()
+					flag := -1
+					for _, f := range FactsAt(c) {
+						if fe, ok := f.Cond.(*ssa.Extract); ok && f.Val && fe.Tuple == ex.Tuple && fe.Index != ex.Index {
+							flag = fe.Index
+						}
 					}
-					ea := x.Common().Args
-					for _, pr := range [][2]ssa.Value{{ea[0], ea[1]}, {ea[1], ea[0]}} {
-						ls, ok1 := pr[0].(*ssa.Slice)
-						rs, ok2 := pr[1].(*ssa.Slice)
-						if !ok1 || !ok2 || ls.Low != nil || rs.Low != nil || ls.High == nil || rs.High == nil {
-							continue
+					if h != nil && h.Blocks != nil && flag >= 0 {
+						all, n := true, 0
+						for _, b := range h.Blocks {
+							ret, ok := lastInstr(b).(*ssa.Return)
+							if !ok || flag >= len(ret.Results) || ex.Index >= len(ret.Results) {
+								continue
+							}
+							if k, isK := ret.Results[flag].(*ssa.Const); isK && k.Value != nil && k.Value.String() == "false" {
+								continue
+							}
+							n++
+							w, l, st := gateAt(ret, ret.Results[ex.Index])
+							if !(w && l && st) {
+								all = false
+							}
 						}
-						if !isFieldLoad(ls.High, cklenF) || !isFieldLoad(rs.High, cklenF) {
-							continue
-						}
-						idx, fld := sumsElemField(rs.X)
-						if idx == i && fld == sum2F && isStrongOf(ls.X) {
-							okStrong = true
+						if all && n > 0 {
+							okWeak, okLen, okStrong = true, true, true
 						}
 					}
 				}
@@ -310,6 +347,45 @@ func checkC02(p *Prog, r *Report) {
 				}
 			}
 		})
+		// … or a helper that gets the hash and writes its sum (sendFileSum(h)):
+		// the helper's own nil returns must be dominated by that write
+		if trailer == nil {
+			allCalls(fn, func(c ssa.CallInstruction) {
+				h := c.Common().StaticCallee()
+				if h == nil || h.Blocks == nil || pkgPathOfFunc(h) != pkgSender || trailer != nil {
+					return
+				}
+				for k, pp := range h.Params {
+					if k >= len(c.Common().Args) || !derivesFrom(c.Common().Args[k], seeding.newCall) {
+						continue
+					}
+					var w ssa.Instruction
+					allCalls(h, func(hc ssa.CallInstruction) {
+						if !hc.Common().IsInvoke() || hc.Common().Method.Name() != "Write" {
+							return
+						}
+						sc, ok := hc.Common().Args[0].(*ssa.Call)
+						if ok && sc.Common().IsInvoke() && sc.Common().Method.Name() == "Sum" && (sc.Common().Value == ssa.Value(pp) || derivesFrom(sc.Common().Value, pp)) {
+							if wf, f := loadedField(hc.Common().Value); f != nil && f.Name() == "Writer" && wf != nil {
+								w = hc
+							}
+						}
+					})
+					if w == nil {
+						continue
+					}
+					inner := true
+					for _, b := range h.Blocks {
+						if ret, ok := lastInstr(b).(*ssa.Return); ok && len(ret.Results) > 0 && isNilConst(ret.Results[len(ret.Results)-1]) && !InstrDominates(w, ret) {
+							inner = false
+						}
+					}
+					if inner {
+						trailer = c
+					}
+				}
+			})
+		}
 		okAll := trailer != nil
 		why := "no Conn.Writer.Write(h.Sum(nil))"
 		if trailer != nil {
